@@ -13,7 +13,7 @@ Every Rust panic inside these functions is an explicit `Except.error (.panic …
 Names come from the exporter's `NameMap` and are a parameter (`Ctx`); name hygiene is property C15.
 -/
 namespace RsslVerif.Model.GenHlsl
-open RsslVerif.Gen.HlslGenTables RsslVerif.Model
+open RsslVerif.Gen.HlslGenTables RsslVerif.Gen.HlslIntrinsicTables RsslVerif.Model
 open RsslVerif.Model.Ir (Ty Var Const)
 
 inductive GenErr where
@@ -139,6 +139,15 @@ def genExpr (cx : Ctx) : Ir.Expr → Except GenErr HlslAst.Expr
     match genArgs cx args with
     | .error e => .error e
     | .ok as => .ok (.call (cx.funcName f) as)
+  | .intr i _ _ args =>
+    -- generate_intrinsic_function
+    match intrinsicForm i with
+    | .invoke name =>
+      match genArgs cx args with
+      | .error e => .error e
+      | .ok as => .ok (.call name as)
+    | .unexpected => .error (.panic "generate_intrinsic_function: Unexpected intrinsic")
+    | _ => .error (.unsupported "method intrinsic")
   | .op o args =>
     match opForm o with
     | .unexpected => .error (.panic "generate_intrinsic_op: not expected")
